@@ -510,6 +510,10 @@ class Run:
         if sp is not None and not sp.inline and not self.spec_mode:
             from .contracts import apply_contract
             return apply_contract(self, fi, sp, env, dyn_cls)
+        if sp is not None and self.spec_mode and sp.pure and sp.result:
+            # a pure function named inside a clause: its contract's result (no obligations in specifications)
+            from .contracts import apply_contract
+            return apply_contract(self, fi, sp, env, dyn_cls, silent=True)
         if sp is None and not self.spec_mode and not self.eng.allow_inline(fi):
             raise Unsupported('call to %s which has no contract' % fi.qual)
         return self.inline_call(fi, env, dyn_cls)
